@@ -1,5 +1,483 @@
 import RbV.Spec.Orf
 import RbV.Model.OrfScan
-/-! Refinement lemmas for the ORF mirror model (C20 [B]) — see `Thm/C20.lean`. -/
+/-! Refinement of the ORF mirror model (C20 [B]): the sliding-window state machine of `orf.rs` reports exactly the
+open reading frames that are more than `minLen + 2` long, each once.  Core Lean only. -/
 namespace RbV.Lemmas.OrfScan
+open RbV.Orf RbV.Model.OrfScan
+
+/-! ## state plumbing -/
+
+theorem get_set_same (st : State) (off : Nat) (l : List Nat) (h : off < 3) : (st.set off l).get off = l := by
+  rcases (by omega : off = 0 ∨ off = 1 ∨ off = 2) with rfl | rfl | rfl <;> simp [State.get, State.set]
+
+theorem get_set_other (st : State) (off f : Nat) (l : List Nat) (ho : off < 3) (hf : f < 3) (hne : f ≠ off) :
+    (st.set off l).get f = st.get f := by
+  rcases (by omega : off = 0 ∨ off = 1 ∨ off = 2) with rfl | rfl | rfl <;>
+  rcases (by omega : f = 0 ∨ f = 1 ∨ f = 2) with rfl | rfl | rfl <;> simp_all [State.get, State.set]
+
+theorem set_codon (st : State) (off : Nat) (l : List Nat) : (st.set off l).codon = st.codon := by
+  unfold State.set; split <;> (try split) <;> rfl
+
+theorem set_out (st : State) (off : Nat) (l : List Nat) : (st.set off l).out = st.out := by
+  unfold State.set; split <;> (try split) <;> rfl
+
+/-! ## codons by index -/
+
+theorem codonAt_eq (seq : List Nat) (k : Nat) (h : k + 3 ≤ seq.length) :
+    codonAt seq k = [seq[k]'(by omega), seq[k + 1]'(by omega), seq[k + 2]'(by omega)] := by
+  unfold codonAt
+  apply List.ext_getElem
+  · simp; omega
+  · intro i h1 h2
+    simp only [List.length_cons, List.length_nil] at h2
+    rcases (by omega : i = 0 ∨ i = 1 ∨ i = 2) with rfl | rfl | rfl <;> simp
+
+/-- takeWhile of an antitone predicate on an ascending list is a filter -/
+theorem mem_takeWhile_sorted (p : Nat → Bool) : ∀ (l : List Nat), l.Pairwise (· < ·) →
+    (∀ a b, a < b → p b = true → p a = true) → ∀ x, x ∈ l.takeWhile p ↔ x ∈ l ∧ p x = true := by
+  intro l
+  induction l with
+  | nil => intro _ _ x; simp
+  | cons a t ih =>
+    intro hs hp x
+    rw [List.pairwise_cons] at hs
+    by_cases ha : p a = true
+    · simp only [List.takeWhile_cons, ha, if_true, List.mem_cons]
+      rw [ih hs.2 hp x]
+      constructor
+      · rintro (rfl | ⟨h1, h2⟩)
+        · exact ⟨Or.inl rfl, ha⟩
+        · exact ⟨Or.inr h1, h2⟩
+      · rintro ⟨rfl | h1, h2⟩
+        · exact Or.inl rfl
+        · exact Or.inr ⟨h1, h2⟩
+    · simp only [List.takeWhile_cons, ha, Bool.false_eq_true, if_false, List.not_mem_nil, false_iff, List.mem_cons]
+      rintro ⟨rfl | h1, h2⟩
+      · exact ha h2
+      · exact ha (hp a x (hs.1 x h1) h2)
+
+theorem takeWhile_sublist_nodup (p : Nat → Bool) (l : List Nat) (h : l.Nodup) : (l.takeWhile p).Nodup :=
+  (List.takeWhile_sublist p).nodup h
+
+section
+variable (seq : List Nat) (starts stops : List (List Nat)) (minLen : Nat)
+
+/-- a start codon whose last symbol has index `i` -/
+def StartEnd (i : Nat) : Prop := 2 ≤ i ∧ i < seq.length ∧ codonAt seq (i - 2) ∈ starts
+/-- a stop codon whose last symbol has index `j` -/
+def StopEnd (j : Nat) : Prop := 2 ≤ j ∧ j < seq.length ∧ codonAt seq (j - 2) ∈ stops
+
+/-- after `n` symbols: the start codon ending at `i` is still waiting for its stop codon in frame `f` -/
+def Pending (n i f : Nat) : Prop :=
+  i < n ∧ (i + 1) % 3 = f ∧ StartEnd seq starts i ∧ ∀ j, i < j → j < n → (j + 1) % 3 = f → ¬ StopEnd seq stops j
+
+/-- what has been reported after `n` symbols -/
+def Good (n : Nat) (t : Nat × Nat × Nat) : Prop :=
+  IsOrf seq starts stops t.1 t.2.1 ∧ t.2.1 ≤ n ∧ minLen + 2 < t.2.1 - t.1 ∧ t.2.2 = t.1 % 3
+
+/-- the window after `n` symbols -/
+def Window (n : Nat) (w : List Nat) : Prop :=
+  (n < 3 → w = seq.take n) ∧ (3 ≤ n → w = codonAt seq (n - 3))
+
+structure Inv (n : Nat) (st : State) : Prop where
+  win : Window seq n st.codon
+  pend : ∀ f, f < 3 → ∀ i, i ∈ st.get f ↔ Pending seq starts stops n i f
+  sorted : ∀ f, f < 3 → (st.get f).Pairwise (· < ·)
+  out : ∀ t, t ∈ st.out ↔ Good seq starts stops minLen n t
+  nodup : st.out.Nodup
+
+/-- a pending start and a stop codon ending at `n` in its frame make an open reading frame, and conversely -/
+theorem pending_stop_iff (n i : Nat) (hn : n < seq.length) (hstop : StopEnd seq stops n) :
+    Pending seq starts stops n i ((n + 1) % 3) ↔ (2 ≤ i ∧ IsOrf seq starts stops (i - 2) (n + 1)) := by
+  unfold Pending StartEnd IsOrf
+  unfold StopEnd at hstop
+  constructor
+  · rintro ⟨h1, h2, ⟨h3, h4, h5⟩, h6⟩
+    refine ⟨h3, by omega, by omega, by omega, h5, ?_, ?_⟩
+    · have : n + 1 - 3 = n - 2 := by omega
+      rw [this]; exact hstop.2.2
+    · intro k hk1 hk2 hk3 hk
+      refine h6 (k + 2) (by omega) (by omega) (by omega) ⟨by omega, by omega, ?_⟩
+      have : k + 2 - 2 = k := by omega
+      rw [this]; exact hk
+  · rintro ⟨h3, g1, g2, g3, g4, g5, g6⟩
+    refine ⟨by omega, by omega, ⟨h3, by omega, g4⟩, ?_⟩
+    intro j hj1 hj2 hj3 hj
+    exact g6 (j - 2) (by omega) (by omega) (by omega) hj.2.2
+
+end
+
+section
+variable {seq : List Nat} {starts stops : List (List Nat)} {minLen : Nat}
+
+/-- the window after one more symbol -/
+theorem window_step {n : Nat} {w : List Nat} (hn : n < seq.length) (hw : Window seq n w) :
+    Window seq (n + 1) ((if w.length ≥ 3 then w.drop 1 else w) ++ [seq[n]]) := by
+  constructor
+  · intro h3
+    have hw1 := hw.1 (by omega)
+    subst hw1
+    have hl : (seq.take n).length = n := by simp; omega
+    have : ¬ (seq.take n).length ≥ 3 := by omega
+    simp only [this, if_false]
+    rw [List.take_succ_eq_append_getElem hn]
+  · intro h3
+    by_cases h2 : n < 3
+    · have hw1 := hw.1 h2
+      subst hw1
+      have hl : (seq.take n).length = n := by simp; omega
+      have : ¬ (seq.take n).length ≥ 3 := by omega
+      simp only [this, if_false]
+      have hn2 : n = 2 := by omega
+      subst hn2
+      rw [codonAt_eq seq 0 (by omega)]
+      apply List.ext_getElem
+      · simp; omega
+      · intro i h1 h2'
+        simp only [List.length_cons, List.length_nil] at h2'
+        rcases (by omega : i = 0 ∨ i = 1 ∨ i = 2) with rfl | rfl | rfl <;> simp [List.getElem_append]
+    · have hw2 := hw.2 (by omega)
+      subst hw2
+      rw [codonAt_eq seq (n - 3) (by omega), codonAt_eq seq (n + 1 - 3) (by omega)]
+      have e1 : n - 3 + 1 = n + 1 - 3 := by omega
+      have e2 : n - 3 + 2 = n + 1 - 3 + 1 := by omega
+      have e3 : n = n + 1 - 3 + 2 := by omega
+      simp only [List.length_cons, List.length_nil, ge_iff_le, Nat.le_refl, if_true, List.drop_succ_cons,
+        List.drop_zero, List.cons_append, List.nil_append, Nat.reduceAdd]
+      congr 1
+      · congr 1
+      · congr 1
+        · congr 1
+        · congr 1
+          congr 1
+
+
+/-- membership of the window in a set of three-symbol codons -/
+theorem window_mem_iff {n : Nat} {w : List Nat} (cs : List (List Nat)) (hn : n < seq.length)
+    (hw : Window seq (n + 1) w) (h3 : ∀ c ∈ cs, c.length = 3) :
+    w ∈ cs ↔ (2 ≤ n ∧ n < seq.length ∧ codonAt seq (n - 2) ∈ cs) := by
+  by_cases h2 : 2 ≤ n
+  · have := hw.2 (by omega)
+    have e : n + 1 - 3 = n - 2 := by omega
+    rw [e] at this
+    subst this
+    exact ⟨fun h => ⟨h2, hn, h⟩, fun h => h.2.2⟩
+  · have := hw.1 (by omega)
+    subst this
+    constructor
+    · intro h
+      have := h3 _ h
+      simp at this
+      omega
+    · intro h; omega
+
+/-- the emitted reading frames of one flush -/
+def emitted (minLen n : Nat) (sp : List Nat) : List (Nat × Nat × Nat) :=
+  (sp.takeWhile fun s => decide (n + 1 - s > minLen)).map fun s => (s - 2, n + 1, (n + 1) % 3)
+
+theorem step_fields (st : State) (n nuc : Nat) :
+    let codon' := (if st.codon.length ≥ 3 then st.codon.drop 1 else st.codon) ++ [nuc]
+    let off := (n + 1) % 3
+    let sp := if starts.contains codon' then st.get off ++ [n] else st.get off
+    let st2 := step starts stops minLen st n nuc
+    st2.codon = codon' ∧ (∀ f, f < 3 → f ≠ off → st2.get f = st.get f) ∧
+    (stops.contains codon' = true → st2.get off = [] ∧ st2.out = st.out ++ emitted minLen n sp) ∧
+    (stops.contains codon' = false → st2.get off = sp ∧ st2.out = st.out) := by
+  intro codon' off sp st2
+  have hoff : off < 3 := Nat.mod_lt _ (by decide)
+  have hget : ∀ f, ({ st with codon := codon' } : State).get f = st.get f := fun f => rfl
+  have hstep : st2 = (if (!sp.isEmpty && stops.contains codon') = true then
+      { (({ st with codon := codon' } : State).set off []) with out := st.out ++ emitted minLen n sp }
+      else ({ st with codon := codon' } : State).set off sp) := rfl
+  by_cases hc : (!sp.isEmpty && stops.contains codon') = true
+  · have hst2 : st2 = { (({ st with codon := codon' } : State).set off []) with
+        out := st.out ++ emitted minLen n sp } := by
+      rw [hstep, if_pos hc]
+    simp only [Bool.and_eq_true] at hc
+    refine ⟨?_, ?_, ?_, ?_⟩
+    · rw [hst2]; exact set_codon _ _ _
+    · intro f hf hne
+      rw [hst2]
+      show (({ st with codon := codon' } : State).set off []).get f = _
+      rw [get_set_other _ _ _ _ hoff hf hne]; rfl
+    · intro _
+      rw [hst2]
+      exact ⟨get_set_same _ _ _ hoff, rfl⟩
+    · intro h; rw [h] at hc; exact absurd hc.2 (by simp)
+  · have hst2 : st2 = ({ st with codon := codon' } : State).set off sp := by
+      rw [hstep, if_neg hc]
+    refine ⟨?_, ?_, ?_, ?_⟩
+    · rw [hst2]; exact set_codon _ _ _
+    · intro f hf hne
+      rw [hst2, get_set_other _ _ _ _ hoff hf hne]; rfl
+    · intro hs
+      have hemp : sp = [] := by
+        simp only [hs, Bool.and_true, Bool.not_eq_true', Bool.not_eq_false] at hc
+        exact List.isEmpty_iff.mp hc
+      rw [hst2, get_set_same _ _ _ hoff, set_out, hemp]
+      exact ⟨rfl, by simp [emitted]⟩
+    · intro _
+      rw [hst2, get_set_same _ _ _ hoff, set_out]
+      exact ⟨rfl, rfl⟩
+
+
+theorem pending_other {n i f : Nat} (hne : f ≠ (n + 1) % 3) :
+    Pending seq starts stops (n + 1) i f ↔ Pending seq starts stops n i f := by
+  unfold Pending
+  constructor
+  · rintro ⟨h1, h2, h3, h4⟩
+    have : i ≠ n := by intro e; subst e; exact hne h2.symm
+    exact ⟨by omega, h2, h3, fun j a b c => h4 j a (by omega) c⟩
+  · rintro ⟨h1, h2, h3, h4⟩
+    refine ⟨by omega, h2, h3, ?_⟩
+    intro j a b c
+    by_cases e : j = n
+    · subst e; exact absurd c.symm hne
+    · exact h4 j a (by omega) c
+
+theorem pending_same_nostop {n i : Nat} (hns : ¬ StopEnd seq stops n) :
+    Pending seq starts stops (n + 1) i ((n + 1) % 3) ↔
+      (Pending seq starts stops n i ((n + 1) % 3) ∨ (i = n ∧ StartEnd seq starts n)) := by
+  unfold Pending
+  constructor
+  · rintro ⟨h1, h2, h3, h4⟩
+    by_cases e : i = n
+    · subst e; exact Or.inr ⟨rfl, h3⟩
+    · exact Or.inl ⟨by omega, h2, h3, fun j a b c => h4 j a (by omega) c⟩
+  · rintro (⟨h1, h2, h3, h4⟩ | ⟨rfl, h3⟩)
+    · refine ⟨by omega, h2, h3, ?_⟩
+      intro j a b c
+      by_cases e : j = n
+      · subst e; exact hns
+      · exact h4 j a (by omega) c
+    · exact ⟨by omega, rfl, h3, fun j a b _ => by omega⟩
+
+theorem good_step_nostop {n : Nat} (hns : ¬ StopEnd seq stops n) (t : Nat × Nat × Nat) :
+    Good seq starts stops minLen (n + 1) t ↔ Good seq starts stops minLen n t := by
+  unfold Good
+  constructor
+  · rintro ⟨h1, h2, h3, h4⟩
+    refine ⟨h1, ?_, h3, h4⟩
+    by_cases e : t.2.1 = n + 1
+    · exfalso
+      apply hns
+      unfold IsOrf at h1
+      rw [e] at h1
+      refine ⟨by omega, by omega, ?_⟩
+      have : n - 2 = n + 1 - 3 := by omega
+      rw [this]; exact h1.2.2.2.2.1
+    · omega
+  · rintro ⟨h1, h2, h3, h4⟩
+    exact ⟨h1, by omega, h3, h4⟩
+
+theorem mem_emitted {n : Nat} {sp : List Nat} (hsort : sp.Pairwise (· < ·)) (t : Nat × Nat × Nat) :
+    t ∈ emitted minLen n sp ↔ ∃ s, s ∈ sp ∧ n + 1 - s > minLen ∧ t = (s - 2, n + 1, (n + 1) % 3) := by
+  unfold emitted
+  simp only [List.mem_map]
+  constructor
+  · rintro ⟨s, hs, rfl⟩
+    rw [mem_takeWhile_sorted _ sp hsort (by
+      intro a b hab hb
+      simp only [decide_eq_true_eq] at hb ⊢
+      omega)] at hs
+    exact ⟨s, hs.1, by simpa using hs.2, rfl⟩
+  · rintro ⟨s, hs, hlen, rfl⟩
+    refine ⟨s, ?_, rfl⟩
+    rw [mem_takeWhile_sorted _ sp hsort (by
+      intro a b hab hb
+      simp only [decide_eq_true_eq] at hb ⊢
+      omega)]
+    exact ⟨hs, by simpa using hlen⟩
+
+theorem good_step_stop {n : Nat} {sp : List Nat} (hn : n < seq.length) (hstop : StopEnd seq stops n)
+    (hsp : ∀ i, i ∈ sp ↔ Pending seq starts stops n i ((n + 1) % 3)) (hsort : sp.Pairwise (· < ·))
+    (t : Nat × Nat × Nat) :
+    Good seq starts stops minLen (n + 1) t ↔
+      (Good seq starts stops minLen n t ∨ t ∈ emitted minLen n sp) := by
+  rw [mem_emitted hsort]
+  unfold Good
+  constructor
+  · rintro ⟨h1, h2, h3, h4⟩
+    by_cases e : t.2.1 = n + 1
+    · right
+      have hio := h1
+      unfold IsOrf at hio
+      refine ⟨t.1 + 2, ?_, by omega, ?_⟩
+      · rw [hsp, pending_stop_iff seq starts stops n (t.1 + 2) hn hstop]
+        refine ⟨by omega, ?_⟩
+        have : t.1 + 2 - 2 = t.1 := by omega
+        rw [this, ← e]; exact h1
+      · have e2 : t.2.2 = (n + 1) % 3 := by rw [h4]; omega
+        have : t.1 + 2 - 2 = t.1 := by omega
+        rw [this]
+        obtain ⟨a, b, c⟩ := t
+        simp only at e e2 ⊢
+        rw [e, e2]
+    · left; exact ⟨h1, by omega, h3, h4⟩
+  · rintro (⟨h1, h2, h3, h4⟩ | ⟨s, hs, hlen, rfl⟩)
+    · exact ⟨h1, by omega, h3, h4⟩
+    · rw [hsp, pending_stop_iff seq starts stops n s hn hstop] at hs
+      have hio := hs.2
+      unfold IsOrf at hio
+      exact ⟨hs.2, by simp, by simp only; omega, by simp only; omega⟩
+
+
+theorem emitted_nodup {n : Nat} {sp : List Nat} (hsort : sp.Pairwise (· < ·)) (h2 : ∀ s ∈ sp, 2 ≤ s) :
+    (emitted minLen n sp).Nodup := by
+  unfold emitted
+  have hsub := List.takeWhile_sublist (fun s => decide (n + 1 - s > minLen)) (l := sp)
+  have hp : (sp.takeWhile fun s => decide (n + 1 - s > minLen)).Pairwise (· < ·) := hsort.sublist hsub
+  have hp2 : (sp.takeWhile fun s => decide (n + 1 - s > minLen)).Pairwise (fun a b => a < b ∧ 2 ≤ a) := by
+    apply List.Pairwise.imp_of_mem _ hp
+    intro a b ha _ hab
+    exact ⟨hab, h2 a (hsub.subset ha)⟩
+  unfold List.Nodup
+  apply List.Pairwise.map _ _ hp2
+  intro a b ⟨hab, ha⟩ e
+  have := congrArg Prod.fst e
+  simp only at this
+  omega
+
+/-- one loop iteration preserves the invariant -/
+theorem step_inv (h3s : ∀ c ∈ starts, c.length = 3) (h3p : ∀ c ∈ stops, c.length = 3)
+    (hd : ∀ c ∈ starts, c ∉ stops) {n : Nat} {st : State} (hn : n < seq.length)
+    (inv : Inv seq starts stops minLen n st) :
+    Inv seq starts stops minLen (n + 1) (step starts stops minLen st n seq[n]) := by
+  obtain ⟨hc, hother, hstopF, hnostopF⟩ := step_fields (starts := starts) (stops := stops) (minLen := minLen) st n seq[n]
+  have hw' := window_step hn inv.win
+  have hoff : (n + 1) % 3 < 3 := Nat.mod_lt _ (by decide)
+  have hstart_iff := window_mem_iff starts hn hw' h3s
+  have hstop_iff := window_mem_iff stops hn hw' h3p
+  by_cases hs : StopEnd seq stops n
+  · have hcs : stops.contains ((if st.codon.length ≥ 3 then st.codon.drop 1 else st.codon) ++ [seq[n]]) = true := by
+      rw [List.contains_iff_mem]; exact hstop_iff.mpr hs
+    have hnst : ¬ StartEnd seq starts n := fun h => hd _ h.2.2 hs.2.2
+    have hcst : starts.contains ((if st.codon.length ≥ 3 then st.codon.drop 1 else st.codon) ++ [seq[n]]) = false := by
+      cases hb : starts.contains ((if st.codon.length ≥ 3 then st.codon.drop 1 else st.codon) ++ [seq[n]]) with
+      | false => rfl
+      | true => exact absurd (hstart_iff.mp (List.contains_iff_mem.mp hb)) hnst
+    obtain ⟨hg, ho⟩ := hstopF hcs
+    simp only [hcst, Bool.false_eq_true, if_false] at ho
+    refine ⟨?_, ?_, ?_, ?_, ?_⟩
+    · rw [hc]; exact hw'
+    · intro f hf i
+      by_cases hfo : f = (n + 1) % 3
+      · subst hfo
+        rw [hg]
+        simp only [List.not_mem_nil, false_iff]
+        rintro ⟨h1, h2, h3, h4⟩
+        by_cases e : i = n
+        · subst e; exact hnst h3
+        · exact h4 n (by omega) (by omega) rfl hs
+      · rw [hother f hf hfo, pending_other hfo]; exact inv.pend f hf i
+    · intro f hf
+      by_cases hfo : f = (n + 1) % 3
+      · subst hfo; rw [hg]; exact List.Pairwise.nil
+      · rw [hother f hf hfo]; exact inv.sorted f hf
+    · intro t
+      rw [ho, List.mem_append, inv.out t]
+      exact (good_step_stop hn hs (inv.pend _ hoff) (inv.sorted _ hoff) t).symm
+    · rw [ho, List.nodup_append]
+      refine ⟨inv.nodup, emitted_nodup (inv.sorted _ hoff) ?_, ?_⟩
+      · intro s hs'
+        exact ((inv.pend _ hoff s).mp hs').2.2.1.1
+      · intro a ha b hb e
+        subst e
+        have h1 := ((inv.out a).mp ha).2.1
+        obtain ⟨s, _, _, rfl⟩ := (mem_emitted (inv.sorted _ hoff) a).mp hb
+        simp only at h1
+        omega
+  · have hcs : stops.contains ((if st.codon.length ≥ 3 then st.codon.drop 1 else st.codon) ++ [seq[n]]) = false := by
+      cases hb : stops.contains ((if st.codon.length ≥ 3 then st.codon.drop 1 else st.codon) ++ [seq[n]]) with
+      | false => rfl
+      | true => exact absurd (hstop_iff.mp (List.contains_iff_mem.mp hb)) hs
+    obtain ⟨hg, ho⟩ := hnostopF hcs
+    have hmem : ∀ i, i ∈ (if starts.contains ((if st.codon.length ≥ 3 then st.codon.drop 1 else st.codon) ++ [seq[n]])
+          then st.get ((n + 1) % 3) ++ [n] else st.get ((n + 1) % 3)) ↔
+        (Pending seq starts stops n i ((n + 1) % 3) ∨ (i = n ∧ StartEnd seq starts n)) := by
+      intro i
+      by_cases hb : starts.contains ((if st.codon.length ≥ 3 then st.codon.drop 1 else st.codon) ++ [seq[n]]) = true
+      · have hst := hstart_iff.mp (List.contains_iff_mem.mp hb)
+        simp only [hb, if_true, List.mem_append, List.mem_singleton, inv.pend _ hoff i]
+        constructor
+        · rintro (h | h)
+          · exact Or.inl h
+          · exact Or.inr ⟨h, hst⟩
+        · rintro (h | ⟨h, _⟩)
+          · exact Or.inl h
+          · exact Or.inr h
+      · have hnst : ¬ StartEnd seq starts n := fun h => hb (List.contains_iff_mem.mpr (hstart_iff.mpr h))
+        simp only [hb, Bool.false_eq_true, if_false, inv.pend _ hoff i]
+        constructor
+        · exact Or.inl
+        · rintro (h | ⟨_, h⟩)
+          · exact h
+          · exact absurd h hnst
+    refine ⟨?_, ?_, ?_, ?_, ?_⟩
+    · rw [hc]; exact hw'
+    · intro f hf i
+      by_cases hfo : f = (n + 1) % 3
+      · subst hfo
+        rw [hg, hmem i, pending_same_nostop hs]
+      · rw [hother f hf hfo, pending_other hfo]; exact inv.pend f hf i
+    · intro f hf
+      by_cases hfo : f = (n + 1) % 3
+      · subst hfo
+        rw [hg]
+        by_cases hb : starts.contains ((if st.codon.length ≥ 3 then st.codon.drop 1 else st.codon) ++ [seq[n]]) = true
+        · simp only [hb, if_true]
+          rw [List.pairwise_append]
+          refine ⟨inv.sorted _ hoff, List.pairwise_singleton _ _, ?_⟩
+          intro a ha b hb'
+          simp only [List.mem_singleton] at hb'
+          subst hb'
+          exact ((inv.pend _ hoff a).mp ha).1
+        · simp only [hb, Bool.false_eq_true, if_false]
+          exact inv.sorted _ hoff
+      · rw [hother f hf hfo]; exact inv.sorted f hf
+    · intro t
+      rw [ho, good_step_nostop hs t]; exact inv.out t
+    · rw [ho]; exact inv.nodup
+
+theorem init_inv : Inv seq starts stops minLen 0 State.init := by
+  refine ⟨⟨fun _ => by simp [State.init], fun h => by omega⟩, ?_, ?_, ?_, List.nodup_nil⟩
+  · intro f hf i
+    have : State.init.get f = [] := by
+      rcases (by omega : f = 0 ∨ f = 1 ∨ f = 2) with rfl | rfl | rfl <;> rfl
+    rw [this]
+    simp only [List.not_mem_nil, false_iff]
+    rintro ⟨h, _⟩; omega
+  · intro f hf
+    have : State.init.get f = [] := by
+      rcases (by omega : f = 0 ∨ f = 1 ∨ f = 2) with rfl | rfl | rfl <;> rfl
+    rw [this]; exact List.Pairwise.nil
+  · intro t
+    simp only [State.init, List.not_mem_nil, false_iff]
+    rintro ⟨h, h2, _⟩
+    unfold IsOrf at h
+    omega
+
+theorem run_inv (h3s : ∀ c ∈ starts, c.length = 3) (h3p : ∀ c ∈ stops, c.length = 3)
+    (hd : ∀ c ∈ starts, c ∉ stops) : ∀ (rest pre : List Nat) (st : State), seq = pre ++ rest →
+    Inv seq starts stops minLen pre.length st →
+    Inv seq starts stops minLen seq.length (run starts stops minLen st pre.length rest) := by
+  intro rest
+  induction rest with
+  | nil =>
+    intro pre st hseq inv
+    have : seq.length = pre.length := by rw [hseq]; simp
+    rw [this]; exact inv
+  | cons c rest' ih =>
+    intro pre st hseq inv
+    have hn : pre.length < seq.length := by rw [hseq]; simp
+    have hget : seq[pre.length] = c := by
+      simp only [hseq, List.getElem_append_right (Nat.le_refl _), Nat.sub_self, List.getElem_cons_zero]
+    have hstep := step_inv h3s h3p hd hn inv
+    rw [hget] at hstep
+    have := ih (pre ++ [c]) (step starts stops minLen st pre.length c) (by rw [hseq]; simp) (by
+      simpa using hstep)
+    simpa [run] using this
+
+end
+
 end RbV.Lemmas.OrfScan
